@@ -69,7 +69,7 @@ type tIter struct {
 	ents  []tent
 	i     int
 	clean tdec
-	reuse bool   // hand out every key in the SAME buffer (the Iterator contract: a key is valid until the next call)
+	reuse bool // hand out every key in the SAME buffer (the Iterator contract: a key is valid until the next call)
 	buf   []byte
 }
 
